@@ -171,14 +171,14 @@ func (P *Program) aliasFor(fn *ssa.Function) map[string][]string {
 	paramAlias := map[string]string{}
 	if len(rec.Params) == len(cur.Params) {
 		for i := range rec.Params {
-			if rec.Params[i] != cur.Params[i] && rec.Params[i] != "" && rec.Params[i] != "_" && cur.Params[i] != "" && cur.Params[i] != "_" {
+			if rec.Params[i] != cur.Params[i] && !curAll[rec.Params[i]] && rec.Params[i] != "" && rec.Params[i] != "_" && cur.Params[i] != "" && cur.Params[i] != "_" {
 				paramAlias[rec.Params[i]] = cur.Params[i]
 			}
 		}
 	}
 	if len(rec.Results) == len(cur.Results) {
 		for i := range rec.Results {
-			if rec.Results[i] != cur.Results[i] && rec.Results[i] != "" && rec.Results[i] != "_" && cur.Results[i] != "" && cur.Results[i] != "_" {
+			if rec.Results[i] != cur.Results[i] && !curAll[rec.Results[i]] && rec.Results[i] != "" && rec.Results[i] != "_" && cur.Results[i] != "" && cur.Results[i] != "_" {
 				paramAlias[rec.Results[i]] = cur.Results[i]
 			}
 		}
@@ -196,7 +196,9 @@ func (P *Program) aliasFor(fn *ssa.Function) map[string][]string {
 	if pure {
 		changed := map[string]bool{}
 		for i := range rec.Locals {
-			if rec.Locals[i][0] != cur.Locals[i][0] {
+			// only names the function no longer has (a reordering of declarations keeps
+			// every name and needs no mapping)
+			if rec.Locals[i][0] != cur.Locals[i][0] && !curAll[rec.Locals[i][0]] {
 				changed[rec.Locals[i][0]] = true
 			}
 		}
